@@ -45,10 +45,13 @@ type gateServer struct {
 	failKind string
 	failAt   int
 	failed   int
+	// failFirst: the first failFirst requests for each (method, path) are answered 503
+	failFirst int
+	perPath   map[string]int
 }
 
 func newGateServer(writable bool) (*gateServer, error) {
-	g := &gateServer{chunks: map[string][]byte{}, stored: map[string][]byte{}, seen: map[string]int{}, held: make(chan struct{}), release: make(chan struct{}), writable: writable}
+	g := &gateServer{chunks: map[string][]byte{}, stored: map[string][]byte{}, seen: map[string]int{}, perPath: map[string]int{}, held: make(chan struct{}), release: make(chan struct{}), writable: writable}
 	ln, err := net.Listen("tcp", "127.0.0.1:0")
 	if err != nil {
 		return nil, err
@@ -76,6 +79,13 @@ func (g *gateServer) ServeHTTP(w http.ResponseWriter, r *http.Request) {
 	g.seen[r.Method]++
 	hold := g.holdAt > 0 && r.Method == g.holdKind && g.seen[r.Method] == g.holdAt
 	fail := g.failAt > 0 && r.Method == g.failKind && g.seen[r.Method] == g.failAt
+	g.perPath[r.Method+" "+r.URL.Path]++
+	if g.failFirst > 0 && g.perPath[r.Method+" "+r.URL.Path] <= g.failFirst {
+		g.failed++
+		g.mu.Unlock()
+		http.Error(w, "injected transient failure", 503)
+		return
+	}
 	g.mu.Unlock()
 	if hold {
 		close(g.held)
